@@ -308,6 +308,9 @@ class World(object):
             W.now = self.nticks * self.tick
         elif k == 'fire':
             self.guarded(self.timer(ev['t']).fire)
+        elif k == 'enqueue':      # the application handler queues requests; the agent sends them when the next KEEPALIVE arrives
+            for item in ev['items']:
+                self.h.inter_mq.put(item)
         elif k == 'firedue':      # drift mode: fire whatever real call is due first
             dc = self.due_calls()[0]
             self.last_fired = ''
